@@ -402,6 +402,7 @@ type Printer struct {
 	Explicit bool        // spell numbered locals/labels explicitly where LLVM allows ("%3 = ", "3:")
 	inVector int         // depth inside vector constants (Noise.OverwideInts leaves their elements alone)
 	nInt     int         // integer constants printed so far (Noise.OverwideInts)
+	nHex     int         // non-negative integers printed so far (Noise.HexInts)
 }
 
 // idNum spells an unnamed value's number, with redundant leading zeros under Noise.LeadingZeros
@@ -910,6 +911,12 @@ func (p *Printer) constBody(c *Const) string {
 		if c.Lit != "" {
 			return c.Lit
 		}
+		if noise.HexInts && p.inVector == 0 && c.T.K == Int && c.T.Bits > 1 && c.Int.Sign() >= 0 && c.Int.BitLen() <= int(c.T.Bits) {
+			p.nHex++
+			if p.nHex%3 == 0 {
+				return fmt.Sprintf("u0x%X", c.Int)
+			}
+		}
 		if noise.OverwideInts && p.inVector == 0 && c.T.K == Int && c.T.Bits > 1 {
 			// every fourth integer constant is spelled with a literal too wide for its type: LLVM reads
 			// literals modulo 2^N, so v + k*2^N denotes v (k chosen so that the literal also crosses the
@@ -1337,6 +1344,12 @@ func (p *Printer) mdField(f *MDField, asValue bool) string {
 	case MDInline:
 		return p.mdNodeBody(f.Node)
 	case MDInt:
+		if noise.HexInts && f.Int.Sign() >= 0 {
+			p.nHex++
+			if p.nHex%3 == 0 {
+				return fmt.Sprintf("u0x%X", f.Int)
+			}
+		}
 		return f.Int.String()
 	case MDBool:
 		if f.Bool {
